@@ -28,6 +28,8 @@ structure Elem where
   cascaded : List (String × Casc)
   /-- `pseudo_type` -/
   pseudo : Option String
+  /-- attributes of `element` (`element.get(name)`), as far as computing functions read them -/
+  attrs : List (String × Val) := []
   deriving Repr, Inhabited
 
 /-- `parent_style[key]`; `none` when `parent_style is None`. -/
@@ -75,19 +77,15 @@ def textDecoration (key : String) (value parentValue : Val) (cascaded : Bool) : 
     else .ok value
   else .ok value
 
-/-- The part of `ComputedStyle.__missing__` before the computing function is applied.
-Result: the value, and whether `self[key]` was already stored (then the function returns it as it
-is, without calling `COMPUTER_FUNCTIONS[key]`). -/
-def specified (e : Elem) (parent : ParentGet) (key : String) : Except CErr (Val × Bool) := do
+/-- Steps of `ComputedStyle.__missing__` up to and including `if value == 'initial' … elif value ==
+'inherit' …`: the value and what `self[key]` holds at that point. -/
+def specified123 (e : Elem) (parent : ParentGet) (key : String) : Except CErr (Val × Option Val) := do
   let casc := lookup key e.cascaded
-  -- value from the cascade, else 'inherit' / 'initial'
   let (value0, pending) : Val × Option (Option Val) := match casc with
     | some (.val v) => (v, none)
     | some (.pending r) => (.kw "<pending>", some r)
     | none => (if isInherited key || isCustom key then .kw "inherit" else .kw "initial", none)
-  -- if value == 'inherit' and parent_style is None: value = 'initial'
   let value1 := if value0.isKw "inherit" && parent.isNone then Val.kw "initial" else value0
-  -- if pending: value = value.solve(...)  /  except InvalidValues: inherited or initial
   let (value2, stored2) : Val × Option Val ← match pending with
     | none => pure (value1, none)
     | some (some v) => pure (v, none)
@@ -98,20 +96,22 @@ def specified (e : Elem) (parent : ParentGet) (key : String) : Except CErr (Val 
       else do
         let v ← initialValue key
         pure (v, if initialNotComputed.contains key then none else some v)
-  -- if value == 'initial': … elif value == 'inherit': …
-  let (value3, stored3) : Val × Option Val ←
-    if value2.isKw "initial" then do
-      let v ← if isCustom key then pure (Val.strs []) else initialValue key
-      pure (v, if initialNotComputed.contains key then stored2 else some v)
-    else if value2.isKw "inherit" then do
-      let v ← parentValue parent key
-      pure (v, some v)
-    else pure (value2, stored2)
-  -- text decorations / page / specified values
+  if value2.isKw "initial" then do
+    let v ← if isCustom key then pure (Val.strs []) else initialValue key
+    pure (v, if initialNotComputed.contains key then stored2 else some v)
+  else if value2.isKw "inherit" then do
+    let v ← parentValue parent key
+    pure (v, some v)
+  else pure (value2, stored2)
+
+/-- The rest of `__missing__` before the computing function: text decorations, `page`
+(both `del self[key]`), and the early return `if key in self: return self[key]`. -/
+def specified4 (e : Elem) (parent : ParentGet) (key : String) (value3 : Val) (stored3 : Option Val) :
+    Except CErr (Val × Bool) := do
   let (value4, stored4) : Val × Option Val ←
     if isTextDecoration key && parent.isSome then do
       let pv ← parentValue parent key
-      let v ← textDecoration key value3 pv casc.isSome
+      let v ← textDecoration key value3 pv (lookup key e.cascaded).isSome
       pure (v, none)
     else if key == "page" && value3.isKw "auto" then do
       let v ← match parent with
@@ -122,6 +122,13 @@ def specified (e : Elem) (parent : ParentGet) (key : String) : Except CErr (Val 
   match stored4 with
   | some s => pure (s, true)
   | none => pure (value4, false)
+
+/-- The part of `ComputedStyle.__missing__` before the computing function is applied.
+Result: the value, and whether `self[key]` was already stored (then the function returns it as it
+is, without calling `COMPUTER_FUNCTIONS[key]`). -/
+def specified (e : Elem) (parent : ParentGet) (key : String) : Except CErr (Val × Bool) := do
+  let (value3, stored3) ← specified123 e parent key
+  specified4 e parent key value3 stored3
 
 def numOf (v : Val) : Except CErr Rat :=
   match v with
@@ -139,7 +146,8 @@ def fontEnv (e : Elem) (parent : ParentGet) (rootFontSize : Unit → Except CErr
   exRatio := exRatio, chRatio := chRatio,
   get := fun _ => .error (.unsupported "style[key] read while computing font_size"),
   specified := fun _ => .error (.unsupported "specified read while computing font_size"),
-  isRoot := parent.isNone, pseudo := e.pseudo.isSome }
+  isRoot := parent.isNone, pseudo := e.pseudo.isSome,
+  attr := fun k => lookup k e.attrs }
 
 /-- `style['font_size']`: `__missing__('font_size')`. -/
 def ownFontSize (e : Elem) (parent : ParentGet) (rootFontSize : Unit → Except CErr Rat)
